@@ -29,12 +29,20 @@ def nasty(l):
         "controls": f"bell\u0007 nul-free \u0001 del\u007f [{l}]",
         "single": f"it's 'quoted' `backtick` ${{x}} [{l}]",
         "amp": f"a & b < c > d [{l}]",
+        "script_upper": f"x </SCRIPT> y </ScRiPt > z <SCRIPT>w [{l}]",
+        "comment_script": f"<!--<script> still inside </script --> [{l}]",
     }
+
+def bare(l):
+    # for some locales this unit has NO string literal at all (only an interpolation): an empty table
+    if l in ("en", "de"):
+        return {"only": "{{ x }}", "num": 7}
+    return {"only": f"{{{{ x }}}} [{l}]", "num": 7}
 
 for l in LOCALES:
     d = os.path.join(HERE, "locales", l)
     os.makedirs(d, exist_ok=True)
-    for ns, f in [("common", common), ("home", home), ("nasty", nasty)]:
+    for ns, f in [("common", common), ("home", home), ("nasty", nasty), ("bare", bare)]:
         with open(os.path.join(d, f"{ns}.json"), "w", encoding="utf-8") as fh:
             json.dump(f(l), fh, indent=1, ensure_ascii=False)
             fh.write("\n")
